@@ -384,3 +384,250 @@ Proof.
   eexists. split; [vm_compute; reflexivity|]. split; [unfold short; vm_compute; reflexivity|].
   split; [apply Nat.leb_le; vm_compute; reflexivity|]. vm_compute. reflexivity.
 Qed.
+
+(* ---------- answers to the referee's review of these statements (design/reviews/C01.md) ---------- *)
+From FFS Require Import Base.Keccak Tx.SignProofs6.
+
+(* 13. (review issue 3) Signing with the KeyPair signer SUCCEEDS.  Theorems 7 and 8 have
+       [sign_mode ... = Ok out] as a premise.  For every mode, transaction, key, chain id, hash, group,
+       nonce stream and fuel - no guard at all: the signing model with the KeyPair signer never panics;
+       it returns bytes exactly when one of the first [fuel] nonces of the stream gives a usable
+       ECDSA attempt for (d, H(payload)) ([some_nonce_usable]: k mod n <> 0, r <> 0, s <> 0 - for
+       secp256k1 with RFC 6979 the first nonce fails with probability about 2^-255; not a consequence
+       of the group laws, hence a hypothesis); and its only error is the model's own "fuel
+       exhausted", which is not success and has no counterpart in the Go code. *)
+Theorem C01_keypair_sign_classes :
+  forall (o : group_ops) (H : bytes -> bytes) (nonce : Z -> bytes -> nat -> Z) (fuel : nat)
+         (m : mode) (t : tx) (d : N) (chain : Z),
+  let ks := KeyPairSign H (secp_sign_direct o nonce fuel) d in
+  let z := H (sp_data (payload_of m t chain)) in
+  sign_mode m t (Some ks) chain <> Panic /\
+  ((exists out, sign_mode m t (Some ks) chain = Ok out) <-> some_nonce_usable o nonce fuel d z) /\
+  (forall e, sign_mode m t (Some ks) chain = Err e -> e = SM.EOutOfFuel /\ ~ some_nonce_usable o nonce fuel d z).
+Proof. exact keypair_sign_classes. Qed.
+Print Assumptions C01_keypair_sign_classes.
+
+(* 14. (review issue 3) Theorem 8 with success as a CONCLUSION and the returned bytes as a named
+       witness: hypotheses on the inputs only (key in [1,n-1], chain id in [0,2^53], [in_range t]) and
+       on the nonce stream (a usable nonce for the hash of the PRESCRIBED preimage). *)
+Theorem C01_sign_succeeds_end_to_end :
+  forall (o : group_ops), laws o -> (n o < SM.two256)%Z ->
+  forall (H : bytes -> bytes), (forall x, length (H x) = 32%nat) ->
+  forall (nonce : Z -> bytes -> nat -> Z) (fuel : nat)
+         (m : mode) (t : tx) (d : N) (chain : Z),
+  (1 <= Z.of_N d < n o)%Z -> (0 <= chain <= 2 ^ 53)%Z -> in_range t ->
+  let fm := format_of m t in
+  let c := Z.to_N chain in
+  let pre := spec_preimage fm (norm t) c in
+  some_nonce_usable o nonce fuel d (H pre) ->
+  exists out v r s,
+    sign_mode m t (Some (KeyPairSign H (secp_sign_direct o nonce fuel) d)) chain = Ok out /\
+    SM.SignDirect o nonce fuel (Z.of_N d) (H pre) = Ok {| SM.sV := v; SM.sR := r; SM.sS := s |} /\
+    (1 <= r < n o)%Z /\ (1 <= s < n o)%Z /\ (2 * s <= n o)%Z /\
+    ecdsa_verify o (pub o (Z.of_N d)) (SM.hash_to_z (H pre)) r s = true /\
+    (v_legacy v ->
+       out = spec_signed fm (norm t) c (y_of v) (Z.to_N r) (Z.to_N s) /\
+       RecoverRawTransaction H (secp_RecoverDirect o H) out chain
+       = Ok (secp_address o H d, recovered_tx fm (norm t), pre)).
+Proof. exact sign_succeeds_end_to_end. Qed.
+Print Assumptions C01_sign_succeeds_end_to_end.
+
+(* 15. Theorem 14 with the hash of the code: Keccak-256 as computed in Gallina (Base/Keccak.v, the
+       instance the correspondence run evaluates); its 32-byte law is proved, not assumed.  The
+       group stays abstract (that secp256k1 satisfies the laws is the trusted mathematical fact). *)
+Theorem C01_sign_succeeds_end_to_end_keccak :
+  forall (o : group_ops), laws o -> (n o < SM.two256)%Z ->
+  forall (nonce : Z -> bytes -> nat -> Z) (fuel : nat)
+         (m : mode) (t : tx) (d : N) (chain : Z),
+  (1 <= Z.of_N d < n o)%Z -> (0 <= chain <= 2 ^ 53)%Z -> in_range t ->
+  let fm := format_of m t in
+  let c := Z.to_N chain in
+  let pre := spec_preimage fm (norm t) c in
+  some_nonce_usable o nonce fuel d (keccak256 pre) ->
+  exists out v r s,
+    sign_mode m t (Some (KeyPairSign keccak256 (secp_sign_direct o nonce fuel) d)) chain = Ok out /\
+    SM.SignDirect o nonce fuel (Z.of_N d) (keccak256 pre) = Ok {| SM.sV := v; SM.sR := r; SM.sS := s |} /\
+    (1 <= r < n o)%Z /\ (1 <= s < n o)%Z /\ (2 * s <= n o)%Z /\
+    ecdsa_verify o (pub o (Z.of_N d)) (SM.hash_to_z (keccak256 pre)) r s = true /\
+    (v_legacy v ->
+       out = spec_signed fm (norm t) c (y_of v) (Z.to_N r) (Z.to_N s) /\
+       RecoverRawTransaction keccak256 (secp_RecoverDirect o keccak256) out chain
+       = Ok (secp_address o keccak256 d, recovered_tx fm (norm t), pre)).
+Proof. exact sign_succeeds_end_to_end_keccak. Qed.
+Print Assumptions C01_sign_succeeds_end_to_end_keccak.
+
+(* 16. (review issue 4) Theorems 1 and 10 say what the bytes are only for an answer with V in
+       {27,28}.  For ANY (V, R, S) an arbitrary Signer answers, the returned bytes are the format's
+       list with the scalars |V'|, |R|, |S| appended, V' = [v_written fm chain V]: V itself in the
+       original format, V + 2*chain + 8 under EIP-155, and in type 0x02 V - 27 when V.Int64() is
+       27 or 28 and V otherwise (a big.Int is written as its magnitude).  Third conjunct: for a
+       27/28 answer this is the specification's V, i.e. theorem 1.  Size guards as in theorem 10:
+       [short pd] for the payload, [short out] for the bytes. *)
+Theorem C01_wire_format_any_v :
+  forall (m : mode) (t : tx) (f : signer) (chain : Z),
+  (0 <= chain)%Z ->
+  let fm := format_of m t in
+  let c := Z.to_N chain in
+  let pre := spec_preimage fm (norm t) c in
+  let pd := sp_data (payload_of m t chain) in
+  (short pd -> pd = pre) /\
+  match f pd with
+  | Ok (v, r, s) =>
+      exists out, sign_mode m t (Some f) chain = Ok out /\
+        (short out ->
+         out = spec_signed_v fm (norm t) c (Z.abs_N (v_written fm chain v)) (Z.abs_N r) (Z.abs_N s)) /\
+        (v_legacy v -> Z.abs_N (v_written fm chain v) = spec_v fm c (y_of v))
+  | Err e => sign_mode m t (Some f) chain = Err e
+  | Panic => sign_mode m t (Some f) chain = Panic
+  end.
+Proof. exact sign_wire_format_any_v. Qed.
+Print Assumptions C01_wire_format_any_v.
+
+(* [spec_signed_v] is [spec_signed] with the V position left free *)
+Theorem C01_spec_signed_v :
+  forall fm f c y r s, spec_signed fm f c y r s = spec_signed_v fm f c (spec_v fm c y) r s.
+Proof. exact spec_signed_is_v. Qed.
+Print Assumptions C01_spec_signed_v.
+
+(* 17. (review issue 5) Every scalar of Tx/Spec.v is [B (BE n)], and Rlp/Spec.v's BE is written with
+       the same recursion as the model's minimal big-endian.  Characterisation that does not mention
+       how BE is computed: its big-endian value ([of_be]: the plain left fold acc*256 + b) is x, it
+       has no leading zero byte, it is the ONLY byte string with these two properties, and zero is
+       the empty string. *)
+Theorem C01_BE_characterised :
+  forall x : N,
+  of_be (BE x) = x /\ head_nz (BE x) /\
+  (forall l, head_nz l -> of_be l = x -> l = BE x) /\
+  (BE 0 = [] /\ forall l, of_be l = 0%N -> head_nz l -> l = []).
+Proof. exact BE_characterised. Qed.
+Print Assumptions C01_BE_characterised.
+
+(* 18. (review issue 6) The two signer laws theorem 5 assumes are met by non-constant signers: by
+       the C05 models of SignDirect / RecoverDirect over any group with the ECDSA laws (hence by
+       the toy group of the examples), for every key in [1,n-1] and chain id in [0,2^53]. *)
+Theorem C01_keypair_laws_satisfied :
+  forall (o : group_ops), laws o -> (n o < SM.two256)%Z ->
+  forall (H : bytes -> bytes), (forall x, length (H x) = 32%nat) ->
+  forall (nonce : Z -> bytes -> nat -> Z) (fuel : nat) (d : N) (chain : Z),
+  (1 <= Z.of_N d < n o)%Z -> (0 <= chain <= 2 ^ 53)%Z ->
+  (forall z v r s, secp_sign_direct o nonce fuel d z = Ok (v, r, s) -> (0 <= r)%Z /\ (0 <= s)%Z) /\
+  (forall z v r s, secp_sign_direct o nonce fuel d z = Ok (v, r, s) -> v_legacy v ->
+     secp_RecoverDirect o H (v, r, s) z chain = Ok (secp_address o H d) /\
+     secp_RecoverDirect o H ((v - 27)%Z, r, s) z chain = Ok (secp_address o H d)).
+Proof. exact keypair_laws_satisfied. Qed.
+Print Assumptions C01_keypair_laws_satisfied.
+
+(* The model CAN panic and CAN fail: [<> Panic] and "the only error is the fuel error" in theorem 13
+   are not true by the shape of the model.  A signer that panics makes every mode panic, a signer
+   that fails makes it fail with that error, and the KeyPair signer with an empty nonce budget
+   (fuel 0) gives the fuel error - theorem 13's error case - while with fuel 1 and nonce 2 it
+   succeeds (its success case; hypothesis of theorem 14 for the toy group and LegacyOriginal). *)
+Example C01_model_can_panic_and_fail :
+  let t := mkTx (Some 9%Z) (Some 20000000000%Z) None None (Some 21000%Z) None (Some 1%Z) (Some (repeat xff 60)) in
+  let nonce : Z -> bytes -> nat -> Z := fun _ _ _ => 2%Z in
+  sign_mode LegacyOriginal t (Some (fun _ => Panic)) 1 = Panic /\
+  sign_mode EIP1559 t (Some (fun _ => Err 7%nat)) 1 = Err 7%nat /\
+  sign_mode LegacyOriginal t (Some (KeyPairSign toyH (secp_sign_direct Toy.ops nonce 0) 5%N)) 1 = Err SM.EOutOfFuel /\
+  ~ some_nonce_usable Toy.ops nonce 0 5%N (toyH (spec_preimage Original (norm t) 1)) /\
+  in_range t /\
+  some_nonce_usable Toy.ops nonce 1 5%N (toyH (spec_preimage Original (norm t) 1)) /\
+  exists out, sign_mode LegacyOriginal t (Some (KeyPairSign toyH (secp_sign_direct Toy.ops nonce 1) 5%N)) 1 = Ok out.
+Proof.
+  cbv zeta. split; [reflexivity|]. split; [reflexivity|]. split; [vm_compute; reflexivity|].
+  split; [intros (j & Hj & _); lia|].
+  split; [unfold in_range, below256, two256, data_max; cbn; repeat split; lia|].
+  split; [exists 0%nat; split; [lia|vm_compute; discriminate]|].
+  eexists. vm_compute. reflexivity.
+Qed.
+
+(* non-vacuity of theorem 15: with Keccak-256 itself as the hash (computed by vm_compute), the toy
+   group, key 5 and constant nonce 2, an EIP-1559 transfer on chain 2^53 meets every hypothesis *)
+Example C01_nonvacuous_keccak :
+  let t := mkTx (Some 9%Z) None (Some 1%Z) (Some 30000000000%Z) (Some 21000%Z) (Some (repeat x35 20)) (Some 1%Z) None in
+  let nonce : Z -> bytes -> nat -> Z := fun _ _ _ => 2%Z in
+  let chain := (2 ^ 53)%Z in
+  format_of Auto t = Eip1559 /\ in_range t /\
+  some_nonce_usable Toy.ops nonce 1 5%N (keccak256 (spec_preimage Eip1559 (norm t) (2 ^ 53))) /\
+  exists out, sign_mode Auto t (Some (KeyPairSign keccak256 (secp_sign_direct Toy.ops nonce 1) 5%N)) chain = Ok out.
+Proof.
+  cbv zeta. split; [reflexivity|].
+  split; [unfold in_range, below256, two256, data_max; cbn; repeat split; lia|].
+  split; [exists 0%nat; split; [lia|vm_compute; discriminate]|].
+  eexists. vm_compute. reflexivity.
+Qed.
+
+(* (review issue 6) boundary shapes of the quantifier under theorem 12: LegacyOriginal mode, contract
+   creation (nil destination), 60 bytes of data (long-string form), R with a leading zero byte (31
+   bytes) and S with the top bit set (32 bytes), all fields at RLP boundaries; every hypothesis
+   holds, the bytes are the prescribed ones and recovery hands back the same fields. *)
+Example C01_nonvacuous_boundaries :
+  let t := mkTx (Some 128%Z) (Some 0%Z) None None (Some 255%Z) None (Some (2 ^ 256 - 1)%Z) (Some (repeat xff 60)) in
+  let r := (2 ^ 247 + 3)%Z in
+  let s := (2 ^ 255 + 1)%Z in
+  let f : signer := fun _ => Ok (27%Z, r, s) in
+  let RD : sigdata -> bytes -> Z -> res bytes := fun _ _ _ => Ok (repeat x11 20) in
+  format_of LegacyOriginal t = Original /\
+  in_range t /\ (0 <= 0 <= 2 ^ 53)%Z /\ v_legacy 27 /\ (0 <= r < two256)%Z /\ (0 <= s < two256)%Z /\
+  length (BE (Z.to_N r)) = 31%nat /\ length (BE (Z.to_N s)) = 32%nat /\
+  exists out, sign_mode LegacyOriginal t (Some f) 0 = Ok out /\
+    out = spec_signed Original (norm t) 0 0 (Z.to_N r) (Z.to_N s) /\
+    RecoverRawTransaction (fun b => b) RD out 0
+    = Ok (repeat x11 20, recovered_tx Original (norm t), spec_preimage Original (norm t) 0).
+Proof.
+  cbv zeta. split; [reflexivity|].
+  split; [unfold in_range, below256, two256, data_max; cbn; repeat split; lia|].
+  split; [lia|]. split; [left; reflexivity|].
+  split; [unfold two256; lia|]. split; [unfold two256; lia|].
+  split; [vm_compute; reflexivity|]. split; [vm_compute; reflexivity|].
+  eexists. split; [vm_compute; reflexivity|]. split; [vm_compute; reflexivity|].
+  vm_compute. reflexivity.
+Qed.
+
+(* non-vacuity of theorem 16 outside V in {27,28}: a signer answering the bare parity 0 under EIP-155
+   on chain 1 gets V' = 10 written (not a valid EIP-155 V: theorem 1 is silent, theorem 16 is not);
+   an EIP-155 style V = 37 in type 0x02 is written unchanged; V = 2^64 + 27 in type 0x02 has
+   Int64() = 27 and is written as 2^64 *)
+Example C01_nonvacuous_any_v :
+  let t := mkTx (Some 9%Z) (Some 20000000000%Z) None None (Some 21000%Z) (Some (repeat x35 20)) (Some 1%Z) None in
+  v_written Eip155 1 0 = 10%Z /\ ~ v_legacy 0 /\
+  v_written Eip1559 1 37 = 37%Z /\ v_written Eip1559 1 (2 ^ 64 + 27) = (2 ^ 64)%Z /\
+  exists out, sign_mode LegacyEIP155 t (Some (fun _ => Ok (0%Z, 5%Z, 6%Z))) 1 = Ok out /\ short out /\
+    out = spec_signed_v Eip155 (norm t) 1 10 5 6.
+Proof.
+  cbv zeta. split; [reflexivity|]. split; [intros [E|E]; discriminate|].
+  split; [reflexivity|]. split; [reflexivity|].
+  eexists. split; [vm_compute; reflexivity|]. split; [unfold short; vm_compute; reflexivity|].
+  vm_compute. reflexivity.
+Qed.
+
+(* 19. (review issues 2 and 3) The retry budget [fuel] exists in the model only (the Go code has
+       none).  It does not influence the bytes: a larger budget keeps a success and its bytes, and any
+       two budgets under which signing succeeds give the same bytes - for every mode, transaction,
+       key, chain id, hash, group and nonce stream. *)
+Theorem C01_fuel_irrelevant :
+  forall (o : group_ops) (H : bytes -> bytes) (nonce : Z -> bytes -> nat -> Z)
+         (f1 f2 : nat) (m : mode) (t : tx) (d : N) (chain : Z) (out1 : bytes),
+  sign_mode m t (Some (KeyPairSign H (secp_sign_direct o nonce f1) d)) chain = Ok out1 ->
+  ((f1 <= f2)%nat -> sign_mode m t (Some (KeyPairSign H (secp_sign_direct o nonce f2) d)) chain = Ok out1) /\
+  (forall out2, sign_mode m t (Some (KeyPairSign H (secp_sign_direct o nonce f2) d)) chain = Ok out2 -> out1 = out2).
+Proof.
+  intros o H nonce f1 f2 m t d chain out1 E. split.
+  - intros Hle. exact (fuel_irrelevant o H nonce f1 f2 m t d chain out1 Hle E).
+  - intros out2 E2. exact (fuel_irrelevant_sym o H nonce f1 f2 m t d chain out1 out2 E E2).
+Qed.
+Print Assumptions C01_fuel_irrelevant.
+
+(* non-vacuity of theorem 19, with a nonce stream whose first two nonces are unusable (0 mod n): budgets
+   1 and 2 fail with the fuel error, budgets 3 and 7 succeed (third nonce) with the same bytes *)
+Example C01_nonvacuous_fuel :
+  let t := mkTx (Some 9%Z) (Some 20000000000%Z) None None (Some 21000%Z) (Some (repeat x35 20)) (Some 1%Z) None in
+  let nonce : Z -> bytes -> nat -> Z := fun _ _ j => if (j <? 2)%nat then 0%Z else 2%Z in
+  let ks fuel := KeyPairSign toyH (secp_sign_direct Toy.ops nonce fuel) 5%N in
+  sign_mode LegacyEIP155 t (Some (ks 1%nat)) 1 = Err SM.EOutOfFuel /\
+  sign_mode LegacyEIP155 t (Some (ks 2%nat)) 1 = Err SM.EOutOfFuel /\
+  exists out, sign_mode LegacyEIP155 t (Some (ks 3%nat)) 1 = Ok out /\
+              sign_mode LegacyEIP155 t (Some (ks 7%nat)) 1 = Ok out.
+Proof.
+  cbv zeta. split; [vm_compute; reflexivity|]. split; [vm_compute; reflexivity|].
+  eexists. split; vm_compute; reflexivity.
+Qed.
